@@ -296,7 +296,7 @@ def stress_text(base_lines, rng):
     """valid VHDL by construction: comments inserted at line boundaries of a valid file that has
     no delimited comment of its own"""
     out = []
-    # half of the files without the `/ … *` shape, so that the other constructs are not masked
+    # half of the files without lines starting with `/` (the shape of the defect repaired in c5cb15b)
     bodies = DC_BODY if rng.random() < 0.5 else [b for b in DC_BODY if not b.startswith("/")]
     for l in base_lines:
         r = rng.random()
@@ -453,6 +453,11 @@ def part_lines(res, tier, cov):
                     stats["raw_items_in_accepted"] += r.get("raw_items", 0)
                     if r.get("breach") is not None:
                         stats["contract_breaches"] += 1
+                    if r.get("breach") is not None and not any(fl["kind"] == "notLossless" for fl in r["fails"]):
+                        # the hypothesis of getLines_processLines_partial is false on this file although
+                        # get_lines is lossless on it: the theorem no longer covers the file.  (When the
+                        # file is ALSO emitted wrongly it is the failing input itself and is reported as
+                        # such below, with the breach in its detail.)
                         res.proof_break("contract ValuePreserving (Refines) of design_file.tokenize + post passes on %s" % r["name"], r["breach"])
                 elif st == "rejected":
                     stats["rejected"] += 1
